@@ -78,8 +78,17 @@ def audit_sources():
     return bad
 
 def check_proofs(pid):
-    """compile Properties_<pid>.v on its own, collect theorems and their assumptions"""
-    src = os.path.join(COQ, 'Properties_%s.v' % pid)
+    """compile Properties_<pid>.v (and its supplements Properties_<pid><letter>.v) on their own, collect theorems and assumptions"""
+    import glob
+    files = [os.path.join(COQ, 'Properties_%s.v' % pid)] + sorted(glob.glob(os.path.join(COQ, 'Properties_%s[a-z]*.v' % pid)))
+    res = {'file': ' '.join(os.path.basename(f) for f in files), 'theorems': [], 'obligations': 0, 'discharged': 0, 'axioms': {}, 'errors': []}
+    for src in files:
+        one = check_proof_file(src)
+        res['theorems'] += one['theorems']; res['obligations'] += one['obligations']; res['discharged'] += one['discharged']
+        res['axioms'].update(one['axioms']); res['errors'] += one['errors']
+    return res
+
+def check_proof_file(src):
     res = {'file': os.path.basename(src), 'theorems': [], 'obligations': 0, 'discharged': 0, 'axioms': {}, 'errors': []}
     if not os.path.exists(src):
         res['errors'].append('missing ' + src); return res
@@ -96,7 +105,7 @@ def check_proofs(pid):
     blocks = re.split(r'\n(?=Closed under the global context|Axioms:)', '\n' + out)
     blocks = [b for b in blocks if b.startswith('Closed under') or b.startswith('Axioms:')]
     if len(blocks) != len(thms):
-        res['errors'].append('expected one Print Assumptions per theorem: %d theorems, %d reports' % (len(thms), len(blocks)))
+        res['errors'].append('%s: expected one Print Assumptions per theorem: %d theorems, %d reports' % (os.path.basename(src), len(thms), len(blocks)))
         return res
     ok = 0
     for name, b in zip(thms, blocks):
@@ -175,7 +184,7 @@ def main():
     if a.tier == 'thorough' and not proofs['errors']:
         # second opinion: the independent checker re-checks the compiled property file and everything it depends on
         t1 = time.time()
-        rc, out = tie.sh('timeout 2400 coqchk -o -silent -Q . HepMC HepMC.Properties_%s' % pid, cwd=COQ, timeout=2500)
+        rc, out = tie.sh('timeout 2400 coqchk -o -silent -Q . HepMC %s' % ' '.join('HepMC.' + f[:-2] for f in proofs['file'].split()), cwd=COQ, timeout=2500)
         m = re.search(r'\* Axioms:(.*?)\n\s*\n\* Constants/Inductives relying on type-in-type:(.*?)\n', out, flags=re.S)
         axioms = [x.strip() for x in (m.group(1).split('\n') if m else []) if x.strip() and x.strip() != '<none>']
         unsafe = re.findall(r'relying on (?:type-in-type|unsafe \(co\)fixpoints)|positivity is assumed: (?!<none>)', out)
@@ -208,6 +217,13 @@ def main():
             cov['samples'].append({'case': dump(list(r['case'][:4]))[:600], 'observation': dump(r['cxx'])[:400]})
         if diffs:
             broken.append({'stage': 'correspondence', 'detail': '%d of %d cases differ; first: %s' % (len(diffs), len(results), diffs[0]['diff'])})
+        # extraction cross-check: a few of the same cases evaluated inside Coq (vm_compute) must give what the extracted model printed
+        mi, mo = tie.last_model_io
+        order = list(range(len(mi))); rng2 = random.Random(seed * 7919 + int(pid[1:])); rng2.shuffle(order)
+        n_vm, bad_vm, detail_vm = tie.vm_crosscheck([mi[k] for k in order], [mo[k] for k in order], limit=(5 if a.tier == 'quick' else 25))
+        cov['vm_compute_crosscheck'] = {'cases': n_vm, 'mismatches': bad_vm}
+        if bad_vm:
+            broken.append({'stage': 'extraction', 'detail': 'vm_compute and the extracted model disagree on %d of %d sampled cases %s' % (bad_vm, n_vm, detail_vm)})
     elif cases:
         if not any(b['stage'] in ('cxx', 'extraction') for b in broken):
             broken.append({'stage': 'correspondence', 'detail': 'drivers unavailable'})
@@ -261,7 +277,7 @@ def main():
         'property_id': pid, 'tier': a.tier, 'seed': seed, 'level': 'proof',
         'coverage': {
             'obligations': proofs['obligations'], 'discharged': proofs['discharged'],
-            'checker_cmd': 'coqc -Q . HepMC %s (after coq_makefile -f _CoqProject && make -j16; full .vo)' % proofs['file'],
+            'checker_cmd': 'for f in %s; do coqc -Q . HepMC $f; done   (in coq/, after coq_makefile -f _CoqProject -o Makefile && make -j16; full .vo)' % proofs['file'],
             'trusted_base': sorted(set(['Coq 8.16.1 kernel (vm_compute used; native_compute not used)',
                               'translator/cxx2gallina.py + clang AST dump', 'extraction (ExtrOcamlBasic only) + OCaml 4.13',
                               'correspondence harness (harness/, tools/)'] +
@@ -270,7 +286,7 @@ def main():
             'evaluations': cov['evaluations'], 'distinct_nontrivial': cov['distinct_nontrivial'],
             'rule': P.get('rule', ''), 'samples': cov['samples'][:4] or [{'obligations': proofs['theorems'][:5]}],
             'input_classes': cov['classes'], 'correspondence_diffs': len(diffs),
-            'extra': dict(cov.get('extra', {}), **thorough_extra),
+            'extra': dict(cov.get('extra', {}), **thorough_extra), 'vm_compute_crosscheck': cov.get('vm_compute_crosscheck', {}),
             'stages': {k: st[k][0] for k in ('translator', 'coq', 'extraction', 'cxx')},
             'prepare_s': round(st.get('prepare_s', 0), 1),
         },
